@@ -352,6 +352,18 @@ class PoolGen:
             self.add("delta", [rng.choice([2, 3]), rng.choice([1, 2])], tag="tensor")
 
         self.scenarios(d)
+        # tensor diagrams over pool objects (calculate()/copy() are queries on them; builder calls are not generated)
+        if rng.random() < 0.5:
+            tr = self.by.get(f"transf{d}", [])
+            pts = self.by.get(f"point{d}", [])
+            hyp = self.by.get("plane" if d == 3 else "line2", [])
+            c = rng.random()
+            if c < 0.4 and tr and pts:
+                self.add("diagram", [], {"edges": [[rng.choice(pts), rng.choice(tr)]]}, tag="diagram")
+            elif c < 0.7 and hyp and pts:
+                self.add("diagram", [], {"edges": [[rng.choice(pts), rng.choice(hyp)]]}, tag="diagram")
+            elif pts:
+                self.add("diagram", [], {"nodes": rng.sample(pts, 2)}, tag="diagram")
         # the public module constants as operands (users pass geometer.I, infty, ... to queries, print them, ...)
         if rng.random() < 0.5:
             names = ["I", "J", "infty", "absolute_conic"] if d == 2 else ["infty_plane", "I", "J", "infty"]
@@ -387,9 +399,33 @@ def _scenarios(self, d):
     def pt(c, dt="f"):
         return self.add("point", [list(c) + [1]], {"how": "hom", "dt": dt}, tag="scenpt")
 
+    if d == 3 and rng.random() < 0.4:
+        # 3D polygons met by lines/segments of which SOME lie in / parallel to the supporting planes: the
+        # except-LinearDependenceError recovery paths of PolygonTensor.intersect
+        sq = lambda z: [[0, 0, z, 1], [2, 0, z, 1], [2, 2, z, 1], [0, 2, z, 1]]  # noqa: E731
+        pc = self.add("polygoncoll", [[sq(1), sq(2)]], {"dt": rng.choice(["i", "f"])}, tag="polygoncoll")
+        a = self.add("pointcoll", [[[1, 1, 0, 1], [0, 0, 2, 1]]], {"dt": "i"}, tag="pointcoll3")
+        b = self.add("pointcoll", [[[1, 1, 3, 1], [1, 1, 2, 1]]], {"dt": "i"}, tag="pointcoll3")
+        sc = self.add("segmentcoll", [a, b], tag="segmentcoll")
+        lc = self.add("linecoll_pq", [a, b], tag="linecoll3")
+        self.script.append({"op": "poly_intersect", "args": [pc, sc]})
+        self.script.append({"op": "poly_intersect", "args": [pc, lc]})
+        self.script.append({"op": "area", "args": [pc]})
+        self.script.append({"op": "poly_intersect", "args": [pc, sc]})
+        return
     if d == 2:
         c = rng.randrange(3)
-        if c == 0:   # Transformation.from_points_and_conics: points on the conics
+        if c == 0 and rng.random() < 0.3:   # NoIncidence path: a point that is not on the conic
+            c1 = self.add("circle", [None, 1], tag="conic")
+            ps = [pt(x, "i") for x in ((3, 3), (0, 1), (1, 0), (0, 0), (0, 4), (2, 2))]
+            self.script.append({"op": "from_points_and_conics", "args": ps + [c1, c1]})
+            g, h = [1, 0, 0], [0, 1, -1]
+            m = [[g[i] * h[j] + g[j] * h[i] for j in range(3)] for i in range(3)]
+            dq = self.add("conic", [m], {"dual": True}, tag="conic")   # degenerate DUAL conic
+            ln = self.add("line", [[1, 1, 1]], {"dt": "i"}, tag="line2")
+            self.script.append({"op": "q_intersect", "args": [dq, ln]})
+            self.script.append({"op": "q_components", "args": [dq]})
+        elif c == 0:   # Transformation.from_points_and_conics: points on the conics
             c1 = self.add("circle", [None, 1], tag="conic")
             ctr = pt((0, 2), "i")
             c2 = self.add("circle", [ctr, 2], tag="conic")
@@ -403,6 +439,14 @@ def _scenarios(self, d):
             self.script.append({"op": "conic_from_crossratio", "args": [e, b, c_, dd], "p": {"cr": 2}})
             f1, f2, bb = pt((0, 2)), pt((0, -2)), pt((0, 3))
             self.script.append({"op": "conic_from_foci", "args": [f1, f2, bb]})
+        elif c == 2 and rng.random() < 0.5:   # Transformation.from_points (2D) and a polygon given by its edges
+            src = [(0, 0), (1, 0), (0, 1), (1, 1)]
+            k, sh = rng.choice([1, 2, 3]), (rng.randint(-2, 2), rng.randint(-2, 2))
+            a = [pt(x, "i") for x in src]
+            b = [pt((k * x[0] + sh[0], 2 * x[1] + sh[1]), "i") for x in src]
+            self.script.append({"op": "from_points2", "args": a + b})
+            segs = [self.add("segment", [a[i], a[j]], tag="segment") for i, j in ((0, 1), (1, 3), (3, 2))]
+            self.script.append({"op": "polygon_from_segments", "args": segs})
         else:         # four concurrent lines / a harmonic range
             o = (rng.randint(-2, 2), rng.randint(-2, 2))
             ls = []
@@ -422,6 +466,8 @@ def _scenarios(self, d):
             a = [pt(x, "i") for x in src]
             b = [pt(tuple(k * x[i] + sh[i] for i in range(3)), "i") for x in src]
             self.script.append({"op": "from_points3", "args": a + b})
+        elif False:
+            pass
         else:        # five planes through one point; four coaxial planes
             o = [rng.randint(-2, 2) for _ in range(3)]
             pls = []
